@@ -6,7 +6,7 @@ spacers, the `~A` header line (plain or with mnemonics) and the row loop with `t
 
 Runtime services modelled here (validated against the interpreter by harness/props/c01.py on every run):
 * `'%[w].Nf' % x` for a binary64 `x` : exact decimal expansion rounded half-even to N fraction digits (`fmtFixed`);
-* `textwrap.TextWrapper(width=w).wrap(row)` : the chunk model (`textWrap`), valid when no chunk is longer than
+* `textwrap.TextWrapper(width=w, break_long_words=False, break_on_hyphens=False).wrap(row)` : the chunk model (`textWrap`); before the repair: valid when no chunk is longer than
   the width and no word has a hyphen/em-dash break position (tokens are numbers here).
 -/
 namespace Lasio.Dw
@@ -159,7 +159,7 @@ def closeLine (cur : List Str) : Option Str :=
     | [] => []
   if kept.isEmpty then none else some kept.reverse.flatten
 
-/-- `_wrap_chunks` when every chunk fits in the width.  `has` = a line has already been emitted,
+/-- `_wrap_chunks` with `break_long_words=False` (when every chunk fits in the width the flag plays no part).  `has` = a line has already been emitted,
 `cur` = wrapChunks of the current line (reversed), `n` = their total length. -/
 def wrapLines (w : Nat) : List Str → Bool → List Str → Nat → List Str
   | [], _, cur, _ => (closeLine cur).toList
@@ -171,8 +171,17 @@ def wrapLines (w : Nat) : List Str → Bool → List Str → Nat → List Str
       l.toList ++ (if has' && isBlankChunk c then wrapLines w cs has' [] 0
                    else wrapLines w cs has' [c] c.length)
 
-/-- `TextWrapper(width=w).wrap(s)`; `none` = unmodelled (width ≤ 0 raises; a chunk longer than the width would be broken) -/
+/-- `TextWrapper(width=w, break_long_words=False, break_on_hyphens=False).wrap(s)`; `none`: width ≤ 0 raises.  A chunk longer
+than the width is not broken (since the repair "wrapped data lines cut a value longer than data_width in two"): it cannot be
+added to a line that has something on it, and it is put alone on the next one (`_handle_long_word` on an empty line) — which
+is what `wrapLines` does with it: started as `[c]` with `n > w`, the line accepts no further chunk and is closed. -/
 def textWrap (w : Nat) (s : Str) : Option (List Str) :=
+  if w = 0 then none
+  else some (wrapLines w (wrapChunks (wrapMunge s)) false [] 0)
+
+/-- `TextWrapper(width=w).wrap(s)` as the writer called it BEFORE that repair (long words broken): modelled only when no chunk
+is longer than the width; kept to state the defect (`C01_counterexample_long_value_broken`) -/
+def textWrapOld (w : Nat) (s : Str) : Option (List Str) :=
   let cs := wrapChunks (wrapMunge s)
   if w = 0 || cs.any (fun c => c.length > w) then none
   else some (wrapLines w cs false [] 0)
